@@ -6,8 +6,8 @@
    it. *)
 From Coq Require Import List Arith Bool NArith.
 From FFSM2 Require Import Model.TaskList Model.BitArray Model.BitStream Model.Plan Model.Ancestors Model.Machine
-  Proofs.BitArrayProofs Proofs.MachineFrame Proofs.MachinePlan Proofs.MachineLife Proofs.GuardProofs Proofs.CycleProofs Proofs.PlanStep
-  Proofs.SerialProofs Proofs.LogProofs Proofs.MachineTop Model.Multi Generated.InitFacts Proofs.ConstructProofs Proofs.LifeMonitor Proofs.ActivationRounds Proofs.IndexSafety Proofs.FeatureProofs.
+  Proofs.BitArrayProofs Proofs.TaskListProofs Proofs.TaskListRun Proofs.PlanProofs Proofs.MachineFrame Proofs.MachinePlan Proofs.MachineLife Proofs.GuardProofs Proofs.CycleProofs Proofs.PlanStep
+  Proofs.SerialProofs Proofs.LogProofs Proofs.MachineTop Model.Multi Generated.InitFacts Proofs.ConstructProofs Proofs.LifeMonitor Proofs.ActivationRounds Proofs.IndexSafety Proofs.FeatureProofs Model.Script Proofs.Contract Proofs.Histories Proofs.StatusBits.
 Import ListNotations.
 
 (* changeWith(d, p) from outside stores exactly (255, d, Some p); changeTo stores None *)
@@ -26,7 +26,8 @@ Theorem C07_guards_see_the_request :
   forall (P : Type) (cfg : config) (orc : oracle P) (PI : plan_data P -> Prop),
          plan_inv_ok P cfg PI ->
          wf_oracle P cfg orc ->
-         forall (cur pend : transition P) (s : mstate P) (w : who) (r : recipient) (m : method) (v : view P),
+         forall (cur pend : transition P) (s : mstate P) (w : who) (r : recipient) 
+           (m : method) (v : Machine.view P),
          In (EvCb P w r m v) (tr P (fst (cancelled_by_guards P cfg orc cur pend s))) ->
          In (EvCb P w r m v) (tr P s) \/ v_kind P v = KGuard /\ v_cur P v = cur /\ v_pend P v = pend.
 Proof. exact (guards_see_pending). Qed.
@@ -37,7 +38,7 @@ Theorem C07_destination_sees_the_survivor :
   forall (P : Type) (cfg : config) (orc : oracle P) (PI : plan_data P -> Prop),
          plan_inv_ok P cfg PI ->
          wf_oracle P cfg orc ->
-         forall (cur : transition P) (s : mstate P) (w : who) (r : recipient) (m : method) (v : view P),
+         forall (cur : transition P) (s : mstate P) (w : who) (r : recipient) (m : method) (v : Machine.view P),
          In (EvCb P w r m v) (tr P (deep_change_to_requested P cfg orc cur s)) ->
          In (EvCb P w r m v) (tr P s) \/ v_kind P v = KPlan /\ v_cur P v = cur.
 Proof. exact (lifecycle_sees_current). Qed.
@@ -105,7 +106,7 @@ Theorem C07_no_payload_invented :
          (c_history cfg = true -> t_pay P (previous P (co P s')) = None) /\
          (exists l : list (event P),
             tr P s' = l ++ tr P s /\
-            (forall (w : who) (r : recipient) (m : method) (v : view P),
+            (forall (w : who) (r : recipient) (m : method) (v : Machine.view P),
              In (EvCb P w r m v) l ->
              t_pay P (v_req P v) = None /\ t_pay P (v_cur P v) = None /\ t_pay P (v_pend P v) = None)).
 Proof. exact (no_payload_invented). Qed.
@@ -125,6 +126,26 @@ Theorem C07_plan_task_payload :
            tr P s1 = tr P (log_rec P cfg (LTransition (tk_origin t) (tk_dest t)) s).
 Proof. exact (plan_scan_fire_step). Qed.
 Print Assumptions C07_plan_task_payload.
+
+(* over whole histories: every update(), react(), immediateChangeTo() and immediateChangeWith() of every in-contract
+   history processes requests exactly once, from a Ready state reached by callbacks that applied no transition - so
+   every statement of this file made for process_request on a Ready state holds for every processing step of every
+   history *)
+Theorem C07_every_processing_step_of_every_history :
+  forall (P : Type) (cfg : config) (orc : oracle P),
+         wf_cfg cfg ->
+         wf_oracle P cfg orc ->
+         forall (lg : bool) (pre : list (api_op P)) (op : api_op P) (post : list (api_op P)),
+         ops_ok P cfg orc (construct P cfg orc lg) (pre ++ op :: post) ->
+         is_processing_op P op = true ->
+         let s := run P cfg orc lg pre in
+         let a := active P (co P s) in
+         exists s5 : mstate P,
+           Ready P cfg s5 a /\
+           run P cfg orc lg (pre ++ [op]) = process_request P cfg orc s5 /\
+           (exists l : list (event P), tr P s5 = l ++ tr P s /\ MachineFrame.quiet P cfg a l).
+Proof. exact (every_processing_step_of_every_history). Qed.
+Print Assumptions C07_every_processing_step_of_every_history.
 
 (* the abstract plan invariant the statements above quantify over is inhabited by the concrete one *)
 Theorem plan_invariant_exists :
